@@ -11,7 +11,7 @@ the start node, the node whose parent is asked for, and one link selector per
 Oracles are computed from an independent description of the tree (nested tuples),
 not from nixio.
 """
-from vf.ob import Ob, assume
+from vf.ob import Ob, assume, untraced
 from vf import models, fakeh5, nixfake
 
 PROPERTY = "C13"
@@ -79,6 +79,16 @@ def _bfs(shape, start, limit, fname):
 
 
 def _build_sections(f, shape):
+    with untraced():
+        return _build_sections_c(f, shape)
+
+
+def _build_sources(blk, shape):
+    with untraced():
+        return _build_sources_c(blk, shape)
+
+
+def _build_sections_c(f, shape):
     ids = {}
 
     def rec(parent, nodes, path):
@@ -90,7 +100,7 @@ def _build_sections(f, shape):
     return ids
 
 
-def _build_sources(blk, shape):
+def _build_sources_c(blk, shape):
     ids = {}
 
     def rec(parent, nodes, path):
